@@ -68,7 +68,20 @@ ASSUMPTIONS = [
     "DynamicStreams::init itself (sockets) is not executed: the (ExchangeId, SubKind) arms it dispatches to are, "
     "and the check fails as a tool error if that list and the route table differ",
     "Binance L2: only routing is judged here (update ids follow the snapshot handed to init); sequencing is C06",
+    "case-twin flavours (named_ct = MarketInstrumentData<u32>, generated_ct = MarketInstrumentData<InstrumentIndex>; the "
+    "flavours that take name_exchange verbatim): the simulated venue ALSO lists markets under mixed-case symbols in the "
+    "route's own symbol format - market 1 kPEPE.. / market 2 KPEPE.. and market 3 KSHIB.. / market 4 kSHIB.. differ only "
+    "by letter case (the all-upper-case one subscribed later resp. first), market 5 is an ordinary symbol; distinct "
+    "symbols are distinct markets of the spec (no case relation in the spec); the venue streams and echoes such a symbol "
+    "EXACTLY as listed and refuses a request that does not name a listed symbol exactly; every subset of these five "
+    "markets is subscribed and a message for every market is sent (one twin subscribed and the other not -> "
+    "unidentifiable; both subscribed -> each carries its own key)",
+    "routes whose connector normalises the case of name_exchange on the way to the wire cannot carry case-twins and "
+    "are skipped by the case-twin flavours: the seven Binance routes (Connector::requests of exchange/binance/mod.rs "
+    "lower-cases the market of every stream name, so symbols that differ only by case are ONE stream there - such a "
+    "pair is outside what the venue can list); the check fails as a tool error if the skipped set is anything else",
 ]
+TWIN_FLAVOURS = ("named_ct", "generated_ct")
 
 SUBKIND = {"PublicTrades": "public_trades", "OrderBooksL1": "l1", "OrderBooksL2": "l2", "Liquidations": "liquidations",
            "OrderBooksL3": "l3", "Candles": "candles"}
@@ -276,6 +289,46 @@ def arms(ctx, info, need=True):
             ctx.c13_vacuous = getattr(ctx, "c13_vacuous", []) + [(key, v)]
 
 
+def twins(ctx, info, table):
+    """the case-twin flavours must have run on every route but the Binance ones (whose connector
+    lower-cases the market on the wire)"""
+    want_skipped = {"%s/%s" % ("/".join(r), fl) for r in table if r[0].startswith("binance_") for fl in TWIN_FLAVOURS}
+    want_run = {"%s/%s" % ("/".join(r), fl) for r in table if not r[0].startswith("binance_") for fl in TWIN_FLAVOURS}
+    skipped = set(info.get("twins_skipped", []))
+    ran = {k for k in info.get("per_route", {}) if k.rsplit("/", 1)[1] in TWIN_FLAVOURS}
+    if skipped != want_skipped or ran != want_run:
+        raise vlib.ToolError("case-twin flavours: skipped %s (expected %s), ran on %d routes x flavours (expected %d: %s)"
+                             % (sorted(skipped), sorted(want_skipped), len(ran), len(want_run), sorted(ran ^ want_run)))
+    ctx.cov["case_twin_route_flavours"] = len(ran)
+    ctx.cov["case_twin_routes_skipped_connector_normalises_case"] = sorted({k.rsplit("/", 1)[0] for k in skipped})
+
+
+def twin_shapes(ctx, keep):
+    """coverage counters of the case-twin shapes in a validated trace (vacuity guard): messages about
+    a market whose case-twin (1<->2, 3<->4) is / is not subscribed"""
+    c = ctx.cov.setdefault("case_twin_shapes", {"subscribed_twin_unsubscribed": 0, "unsubscribed_twin_subscribed": 0,
+                                                "both_subscribed": 0, "events": 0, "unidentifiable": 0})
+    subs = set()
+    for l in keep:
+        if l["fl"] not in TWIN_FLAVOURS:
+            continue
+        if l["a"] == "Subscribe":
+            subs = set() if l["out"] else set(l["S"])
+        elif l["a"] in ("Disconnect", "Reset"):
+            subs = set()
+        elif l["a"] == "Message" and l["m"] <= 4:
+            m = l["m"]
+            tw = {1: 2, 2: 1, 3: 4, 4: 3}[m]
+            if m in subs and tw in subs:
+                c["both_subscribed"] += 1
+            elif m in subs:
+                c["subscribed_twin_unsubscribed"] += 1
+            elif tw in subs:
+                c["unsubscribed_twin_subscribed"] += 1
+            c["events"] += sum(1 for o in l["out"] if o["k"] == "ev")
+            c["unidentifiable"] += sum(1 for o in l["out"] if o["k"] == "unid")
+
+
 def vacuity(ctx):
     """a route x flavour that exercised no message arm is a tool error - unless that is the finding
     (its subscriptions failed and were reported as violations)"""
@@ -308,7 +361,9 @@ def check(ctx):
         # duplicates (skipped in the exhaustive set, mapped to buy/sell in the sessions)
         info = ctx.harness("c13", "run", "--scenarios", scn, "--out", out, "--onesided", "skip" if label == "transitions" else "map")
         arms(ctx, info)
+        twins(ctx, info, table)
         keep = validate(ctx, out, label)
+        twin_shapes(ctx, keep)
         vacuity(ctx)
         ctx.cov["scenarios_replayed"] += sum(1 for l in keep if l["a"] == "Reset")
         if label == "transitions":
@@ -319,8 +374,12 @@ def check(ctx):
     out = ctx.path("trace_random.ndjson")
     info = ctx.harness("c13", "random", "--seed", ctx.seed, "--steps", steps, "--out", out)
     arms(ctx, info)
-    validate(ctx, out, "random")
+    twins(ctx, info, table)
+    twin_shapes(ctx, validate(ctx, out, "random"))
     vacuity(ctx)
+    shapes = ctx.cov.get("case_twin_shapes", {})
+    if not ctx.violations and not all(shapes.get(k) for k in ("subscribed_twin_unsubscribed", "unsubscribed_twin_subscribed", "both_subscribed")):
+        raise vlib.ToolError("vacuous run: case-twin shapes not all exercised: %s" % shapes)
     total_ev = sum(h.get("out_ev", 0) for h in ctx.cov["arm_hits"].values())
     if total_ev == 0:
         raise vlib.ToolError("vacuous run: no route produced a single event")
